@@ -310,8 +310,16 @@ def model_facts(sig, api, rnd, nh, k):
             args = rand_args(rnd, sig, nh, sig.rels[rel]["cols"])
             if args is not None:
                 facts.append(step_insert(rel, args))
+    eq_types = [t for t in sig.types if t not in (model, mor) and t in api["new"] and nh.get(t, 0) >= 2]
     for _ in range(k):
         r = rnd.random()
+        if eq_types and rnd.random() < 0.08:
+            # an equality between two elements of a global type that member tuples mention: the own and the
+            # all copies of the member relations have to be canonicalized consistently
+            t = rnd.choice(eq_types)
+            a, b = rnd.sample(range(nh[t]), 2)
+            facts.append({"op": "equate", "ty": t, "a": a, "b": b})
+            continue
         if r < 0.40 and members:
             rel = rnd.choice(members)
             args = rand_args(rnd, sig, nh, sig.rels[rel]["cols"])
